@@ -2,8 +2,10 @@ module verif/harness
 
 go 1.21
 
-require github.com/akalin/gopar v0.0.0
-
-require github.com/klauspost/cpuid/v2 v2.0.2 // indirect
+require (
+	github.com/akalin/gopar v0.0.0
+	github.com/klauspost/cpuid/v2 v2.0.2
+	github.com/klauspost/reedsolomon v1.9.11
+)
 
 replace github.com/akalin/gopar => /repo
